@@ -446,6 +446,25 @@ func (p *Prog) dependsOn(v ssa.Value, pred func(ssa.Value) bool, deep bool) bool
 		if pred(x) {
 			return true
 		}
+		if pv, ok := x.(*ssa.Parameter); ok && InlineHelpers && helperArg != nil {
+			// helpers-inline pass: a parameter of a single-call-site helper depends on the argument passed there
+			if a := helperArg(pv); a != nil {
+				work = append(work, a)
+			}
+		}
+		if call, ok := x.(*ssa.Call); ok && !deep && InlineHelpers {
+			if f := call.Call.StaticCallee(); f != nil && f.Pkg != nil && f.Parent() == nil && len(f.Blocks) > 0 && strings.HasPrefix(f.Pkg.Pkg.Path(), Mod) {
+				if n := f.Name(); n != "" && n[0] >= 'a' && n[0] <= 'z' {
+					for _, b := range f.Blocks {
+						for _, ins := range b.Instrs {
+							if r, ok := ins.(*ssa.Return); ok {
+								work = append(work, r.Results...)
+							}
+						}
+					}
+				}
+			}
+		}
 		if call, ok := x.(*ssa.Call); ok && deep {
 			if f := call.Call.StaticCallee(); f != nil && f.Pkg != nil && strings.HasPrefix(f.Pkg.Pkg.Path(), Mod) {
 				for _, b := range f.Blocks {
